@@ -87,7 +87,9 @@ func (r *Report) add(rule, construct, verdict, pos, detail string) {
 }
 
 // Add records an obligation with a computed verdict.
-func (r *Report) Add(rule, construct, verdict, pos, detail string) { r.add(rule, construct, verdict, pos, detail) }
+func (r *Report) Add(rule, construct, verdict, pos, detail string) {
+	r.add(rule, construct, verdict, pos, detail)
+}
 
 func rank(v string) int {
 	switch v {
@@ -101,10 +103,18 @@ func rank(v string) int {
 	return 0
 }
 
-func (r *Report) OK(rule, construct, pos, detail string)   { r.add(rule, construct, Discharged, pos, detail) }
-func (r *Report) Bad(rule, construct, pos, detail string)  { r.add(rule, construct, Violated, pos, detail) }
-func (r *Report) Unk(rule, construct, pos, detail string)  { r.add(rule, construct, Undecided, pos, detail) }
-func (r *Report) Skip(rule, construct, pos, detail string) { r.add(rule, construct, NotEvaluated, pos, detail) }
+func (r *Report) OK(rule, construct, pos, detail string) {
+	r.add(rule, construct, Discharged, pos, detail)
+}
+func (r *Report) Bad(rule, construct, pos, detail string) {
+	r.add(rule, construct, Violated, pos, detail)
+}
+func (r *Report) Unk(rule, construct, pos, detail string) {
+	r.add(rule, construct, Undecided, pos, detail)
+}
+func (r *Report) Skip(rule, construct, pos, detail string) {
+	r.add(rule, construct, NotEvaluated, pos, detail)
+}
 
 // Check records discharged/violated according to cond.
 func (r *Report) Check(cond bool, rule, construct, pos, okDetail, badDetail string) bool {
